@@ -707,7 +707,7 @@ pub fn read_back(b: &Builders, u: &Universe, raw: &mut Vec<(String, String)>) ->
     raw.push((
         "Derives::derives".into(),
         dd.derives()
-            .iter()
+            .into_iter()
             .map(|x| nospace(&tokens_of(x)))
             .collect::<Vec<_>>()
             .join(","),
